@@ -93,7 +93,7 @@ class Topology:
         nsap = NetworkServiceAccessPoint()
         nse = (NetworkServiceElement if announce else QuietNSE)()
         bind(nse, nsap)
-        r = {"ports": {}, "nsap": nsap, "name": "R%d" % idx}
+        r = {"ports": {}, "nsap": nsap, "nse": nse, "name": "R%d" % idx}
         for n in ports:
             mac = 100 + idx
             node = Node(Address(mac), self.nets[n])
@@ -229,7 +229,20 @@ def run_topology(run, rng, nnets, announce, cold_only=False):
     if len(combos) > 60:
         combos = combos[:60]
     seq = 0
-    for phase in ("cold", "warm"):
+    for phase in ("cold", "warm", "numbers-learned"):
+        if phase == "numbers-learned":
+            # routers announce the network numbers of their ports (Network-Number-Is): stations bound without a number learn it
+            for r in topo.routers:
+                try:
+                    r["nse"].network_number_is()
+                except Exception as err:
+                    run.violation("network-number-announcement-raised/" + type(err).__name__, {"topology": topo.describe(), "error": repr(err)[:100]})
+            try:
+                CLOCK.drive(duration=2.0, max_steps=300000)
+            except StepBudgetExceeded as err:
+                run.violation("forwarding-does-not-terminate", {"topology": topo.describe(), "error": str(err)})
+                return
+            run.count("network_number_announcements", len(topo.routers))
         for src, kind, tgt in combos:
             seq += 1
             token = "K%05d" % seq
